@@ -268,8 +268,12 @@ def children(obj) -> Iterator[Tuple[str, Any]]:
             yield k, m
 
 
-def named_members(obj, which: str, prefix: str = "", seen=None, recurse: bool = True) -> Iterator[Tuple[str, Any]]:
+def named_members(obj, which: str, prefix: str = "", seen=None, recurse: bool = True, _mods=None) -> Iterator[Tuple[str, Any]]:
     seen = seen if seen is not None else set()
+    _mods = _mods if _mods is not None else set()
+    if id(obj) in _mods:  # torch walks named_modules() with a memo: a module reachable twice (or from itself) is visited once
+        return
+    _mods.add(id(obj))
     if hasattr(obj, "attrs"):
         for k, v in (obj.attrs.get(which) or {}).items():
             if v is None or id(v) in seen:
@@ -278,7 +282,7 @@ def named_members(obj, which: str, prefix: str = "", seen=None, recurse: bool = 
             yield prefix + k, v
     if recurse:
         for k, m in children(obj):
-            yield from named_members(m, which, prefix + k + ".", seen, True)
+            yield from named_members(m, which, prefix + k + ".", seen, True, _mods)
 
 
 def named_modules(obj, prefix: str = "", seen=None) -> Iterator[Tuple[str, Any]]:
